@@ -472,7 +472,8 @@ pub fn gen_doc(rng: &mut Rng, mode: Mode, size: usize) -> String {
             }
         }
         Mode::Unterminated => {
-            let tail = rng.pick(&["local s = \"unterminated", "local s = 'abc\\", "--[[ never closed\nmore", "local t = [[ long string\nstill", "---@class", "local x = {", "f(", "---@param", "--[==[ x ]]"]).to_string();
+            let tail = rng.pick(&["local s = \"unterminated", "local s = 'abc\\", "--[[ never closed\nmore", "local t = [[ long string\nstill", "---@class", "local x = {", "f(", "---@param", "--[==[ x ]]",
+                                  "local m = require(\"", "local m = require('", "local m = require(\"lib.", "print(\"", "local p = \"./", "x.", "x:", "x[\"", "---@type ", "---@field", "---@", "--- `", "local t = { [\"", "for", "function", "local function f(", "return {", "goto", "::"]).to_string();
             if rng.chance(1, 2) {
                 s.push_str(&tail);
             } else {
@@ -517,6 +518,8 @@ pub fn fixed_docs() -> Vec<(&'static str, String)> {
         ("color", "local c = \"#ff00ff\"\nlocal d = \"ff0000\"\n".to_string()),
         ("require-completion", "local u = require(\"lib.\")\nlocal p = require(\"\")\nlocal q = require(\"li\")\nlocal f = \"./lib/\"\n".to_string()),
         ("member-completion", "---@class Pt\n---@field x number\n---@field [\"a b\"] number\nlocal pt = {}\nfunction pt:move() end\nlocal n = pt.\nlocal m = pt:\npt.x.\nlocal arr = {}\narr.\n".to_string()),
+        ("require-unterminated", "local u = require(\"".to_string()),
+        ("require-unterminated-2", "local u = require('\nlocal v = 1\n".to_string()),
         ("signature", "---@param a number\n---@param b string\nlocal function sig(a, b) end\nsig(1, \nsig(\n".to_string()),
     ]
 }
